@@ -157,7 +157,10 @@ def set_tagged(root: config.Buildable, *, tag: TagType, value: Any) -> None:
     if isinstance(node, config.Buildable):
       for key, tags in node.__argument_tags__.items():
         if any(issubclass(t, tag) for t in tags):
-          setattr(node, key, value)
+          if isinstance(key, int):
+            node[key] = value  # Positional arguments are tagged by index.
+          else:
+            setattr(node, key, value)
 
 
 def list_tags(
